@@ -6,6 +6,7 @@ package main
 import (
 	"bytes"
 	"fmt"
+	"strings"
 
 	"verif/harness/common"
 	"verif/harness/interpgen"
@@ -18,6 +19,9 @@ Import ListNotations. Local Open Scope N_scope. Local Open Scope string_scope.
 `
 
 var c *common.Ctx
+
+// wrapProg wraps a corr.C05.case term into the case type of the property being run.
+var wrapProg = func(s string) string { return s }
 
 func key(p *interpgen.Program) string {
 	return p.UnlockHex + "/" + p.LockHex + fmt.Sprint(p.Flags, p.HasTx, p.HasPrev, p.TxLock, p.TxVersion, p.InSeq)
@@ -53,7 +57,7 @@ func emit(p *interpgen.Program) interpgen.Result {
 		c.Violate("Engine.Execute/debugger-changes-verdict", plain+" vs "+res.Obs, p)
 	}
 	frameCheck(p, res)
-	c.Case(interpgen.CoqCase(p, res)+" 0", p, key(p), res.Steps > 0)
+	c.Case(wrapProg(interpgen.CoqCase(p, res)+" 0"), p, key(p), res.Steps > 0)
 	return res
 }
 
@@ -66,6 +70,8 @@ func main() {
 	case "C05":
 		runC05()
 	case "C07":
+		c.SetHeader(strings.Replace(header, "corr.C05.", "corr.C05 model.ExecOpts corr.C07.", 1))
+		wrapProg = func(s string) string { return "KProg (" + s + ")" }
 		runC07()
 	case "C08":
 		runC08()
